@@ -42,7 +42,7 @@ def gen(ctx):
 # ('num', text, Fraction) ('var', name) ('cell', label) ('call', name, [trees]) ('neg', t) ('bin', op, l, r)
 PRIMES = [2, 3, 5, 7, 11, 13, 17, 19, 23, 29, 31, 37, 41, 43, 47, 53, 59, 61, 67, 71]
 VARS = {'alpha': 83, 'beta': 89, 'rate': Fraction(5, 2), 'qq': 97}
-CELLS = {'A1': 101, 'B2': 103, 'AA10': Fraction(1, 4), 'C3': 107}
+CELLS = {'A1': 101, 'B2': 103, 'AA10': Fraction(1, 4), 'C3': 107, 'A$1': 109, '$B2': 113, '$C$3': 127}     # all three cell token kinds
 LEVEL = {'*': 3, '/': 3, '+': 2, '-': 2, '&': 1, '<': 0, '>': 0, '=': 0, '<=': 0, '>=': 0, '<>': 0}
 
 
